@@ -14,6 +14,9 @@ Sub-properties
           combination through RefObs.combine), plus __repr__(print_range) as an argument-taking method.
 In all three every call is made twice with the same operand / argument objects; deep fingerprints of all operands and
 arguments must be unchanged after each call and both calls must return the same result (non-mutation clause).
+
+Genuine defects found on the unchanged tree are recorded in known/F-C14-*.json (+ .meta.json, tested combined patch in
+known/F-C14-proposed-fixes.patch); their input classes are excluded only while vlib.findings.is_open(id).
 """
 import operator
 
@@ -33,7 +36,11 @@ RULE = ('Hypothesis-generated correlators (T = 2..16 including front/back paddin
         'domains of the functions) combined with every operator / function / index transformation of the statement and '
         'partners of every type in both operand orders, partners living on identical, nested, overlapping or disjoint '
         'layouts. A case is non-trivial if the correlator (or a correlator partner) has an undefined timeslice that is not '
-        'at the border, or complex content, or the left operand is not a correlator; distinct = distinct spec hash. '
+        'at the border, or complex content, or the left operand is not a correlator, or a timeslice of the result is undefined '
+        'because the operation yields NaN there (entry outside the domain of the function, negative base, 0 / 0); distinct = '
+        'distinct spec hash. Input classes of open findings (F-C14-1 ... F-C14-9, known/*.meta.json) are kept out by '
+        'construction (label avoided:<id>) or, for whole operator / partner combinations, generated with a low weight and '
+        'counted as skipped; they return automatically once the finding is no longer open. '
         'Cases whose expected result is undefined on every timeslice are executed but only the non-mutation clause is '
         'judged (the library cannot represent such a correlator and raises).')
 ASSUMPTIONS = [
@@ -370,7 +377,7 @@ def check_shape(res, T, N, what):
     require(res.N == N, '%s: matrix dimension %r, expected %d' % (what, res.N, N))
 
 
-def compare_corr(res, expected, T, N, what, cmp, all_undefined_exc=(Exception,)):
+def compare_corr(res, expected, T, N, what, cmp):
     """expected: list over t of None or N x N rows of expected entries; cmp(exp_entry, got_entry, label, t).
     Returns class labels."""
     labs = []
@@ -401,10 +408,6 @@ def compare_corr(res, expected, T, N, what, cmp, all_undefined_exc=(Exception,))
 
 # =============================================================================================== generators
 
-def fids_open(*ids):
-    return [f for f in ids if findings.is_open(f)]
-
-
 MEAN = {
     'pos': gen.fl(0.3, 2.5),
     'mixed': st.one_of(gen.fl(0.3, 2.5), gen.fl(-2.5, -0.3)),
@@ -413,7 +416,7 @@ MEAN = {
 
 
 @st.composite
-def none_set(draw, lo, hi, keep=None):
+def none_set(draw, lo, hi):
     """undefined timeslices inside [lo, hi); at least one slice stays defined"""
     n = hi - lo
     mode = draw(st.sampled_from(['none', 'one', 'one', 'few', 'few', 'many']))
@@ -549,6 +552,7 @@ def arith_combos():
 
 COMBOS = arith_combos()
 COMBOS = COMBOS + [c for c in COMBOS if c[0] in ('**', '@') and c[5] is None] * 3      # few combinations, keep them visible
+COMBOS = COMBOS + [c for c in COMBOS if c[:2] == ('/', 'corr')] * 3                         # the only source of NaN by division
 
 
 @st.composite
@@ -712,7 +716,7 @@ def arith_oracle(spec):
 
     labs = compare_corr(res, expected, T, Nres, what, cmp)
     la, ia = none_labels(spec['a'])
-    nt = ia or spec['a']['cplx'] or spec['left'] != 'corr'
+    nt = ia or spec['a']['cplx'] or spec['left'] != 'corr' or nan_slices > 0
     cls = ['op:' + op, 'partner:' + spec['ptype'], 'combo:%s:%s:%s' % (op, spec['ptype'], 'L' if spec['left'] == 'corr' else 'R'),
            'N:%d' % A.N, 'content:' + ('complex' if spec['a']['cplx'] else 'real')] + ['a:' + x for x in la] + labs
     if spec['p']['type'] == 'corr':
@@ -797,7 +801,7 @@ def func_oracle(spec):
     if nan_slices:
         cls.append('nan_slices')
         cls.append('nan:' + fn)
-    return {'nt': bool(ia), 'cls': sorted(set(cls))}
+    return {'nt': bool(ia or nan_slices), 'cls': sorted(set(cls))}
 
 
 # ----------------------------------------------------------------------------------------------- index transformations
@@ -957,7 +961,6 @@ def cmp_lin(exp, got, lab):
 
 
 def index_oracle(spec):
-    import pyerrors as pe
     kind, ar = spec['kind'], spec['args']
     A = build_corr(spec['a'])
     T, N = A.T, A.N
@@ -1122,11 +1125,11 @@ def index_oracle(spec):
 
 
 SUBS = [
-    Sub('arith', arith_case, arith_oracle, {'quick': 110, 'thorough': 4000}, {'quick': 16, 'thorough': 16},
+    Sub('arith', arith_case, arith_oracle, {'quick': 160, 'thorough': 4000}, {'quick': 16, 'thorough': 16},
         doc='operators + - * / ** @ with every partner type in both orders: timeslice-wise, undefined slices, non-mutation',
         max_skip_frac=0.3),
-    Sub('func', func_case, func_oracle, {'quick': 100, 'thorough': 3000}, {'quick': 6, 'thorough': 8},
+    Sub('func', func_case, func_oracle, {'quick': 150, 'thorough': 3000}, {'quick': 6, 'thorough': 8},
         doc='elementary functions inside and outside their domain: timeslice-wise, NaN -> undefined, non-mutation'),
-    Sub('index', index_case, index_oracle, {'quick': 150, 'thorough': 3000}, {'quick': 10, 'thorough': 16},
+    Sub('index', index_case, index_oracle, {'quick': 200, 'thorough': 3000}, {'quick': 10, 'thorough': 16},
         doc='index transformations against index maps; argument objects unchanged over repeated calls'),
 ]
